@@ -46,6 +46,8 @@ ERR = {0: "NO_ERROR", 1: "PROTOCOL_ERROR", 2: "INTERNAL_ERROR", 3: "FLOW_CONTROL
 
 def step_of(e):
     """TLA+ event record -> harness step."""
+    if e["ev"] == "wrace":
+        return {"a": "wrace", "s": e["s"], "n": e["n"], "code": e["code"]}
     if e["ev"] == "race":
         return {"a": "race", "s": e["s"], "n": e["n"], "code": e["code"]}
     if e["ev"] == "hc":
@@ -85,7 +87,9 @@ def gen(ctx, defines, num, depth, label, exhaustive=False):
         if key in seen:
             continue
         seen.add(key)
-        out.append({"cfg": cfg, "steps": steps, "expM": [x["m"] for x in c["steps"]]})
+        # a bounded transport for behaviours in which the client stops reading for a while
+        ccfg = dict(cfg, cap=256) if any(st.get("a") == "wrace" for st in steps) else cfg
+        out.append({"cfg": ccfg, "steps": steps, "expM": [x["m"] for x in c["steps"]]})
     if not out:
         raise vlib.MachineryError("GenConn (%s) produced no behaviours" % label)
     return out
@@ -236,6 +240,12 @@ def run_cases(ctx, cases, decisive, label):
         nbad += 1
         case = by_id[b["cid"]]
         sig = sig_of(b)
+        if sig.endswith("/stream"):
+            # which stream-level credit is missing: is response DATA of that stream queued behind a
+            # closed send window at this quiescent point (serve-loop snapshot)?
+            for m in mobs.get(b["cid"], []):
+                if m["step"] == b["step"] and m.get("streams", {}).get(str(b["s"]), {}).get("q", 0) > 0:
+                    sig += "-behind-blocked-response-data"
         ev = [e for e in events if e["cid"] == b["cid"] and e["step"] >= b["step"] - 1 and e["step"] <= b["step"]]
         det = "%s stream %s: %s; steps[0..%d]; events of the failing step: %s %s" % (
             b["why"], b["s"], b["d"], b["step"],
@@ -295,6 +305,13 @@ def check_c33(ctx):
                  HEAVY='{"DATA","h-read","RACE"}')
         ctx.cov["constants"]["Gen_C33_sw%d" % sw] = g
         cases += gen(ctx, g, num, 150, "C33")
+    # the enforced connection window = the advertised one: three stream ids (one may be closed and still
+    # receive DATA), boundary-directed DATA lengths (exactly the remaining window / one octet more)
+    go = defs(SW0=65535, MAXS=3, SIDS="{1,3,5}", ESS="{FALSE}", KINDS='{"HEADERS","DATA","RST","BOUND"}',
+              REQS='{"post"}', DATALENS="{1,%d}" % U, PADS="{0}", HOPS='{"ret"}', STEPS=8, MINSTEPS=7,
+              HEAVY='{"DATA"}')
+    ctx.cov["constants"]["Gen_C33_overrun"] = go
+    cases += gen(ctx, go, 320 if q else 1600, 150, "C33-overrun")
     ctx.cov["rule"] = ("cases = TLC-simulated behaviours of GenConn (HEADERS/DATA with padding/RST_STREAM, handler "
                        "reads, returns) with real octet counts on two stream-window configurations; each is replayed "
                        "on a real bfe_http2 server connection and the recorded wire/handler events are validated by "
@@ -322,7 +339,7 @@ def check_c34(ctx):
     run_cases(ctx, cases, {"C34"}, "C34")
 
 
-ALLKINDS = '{"HEADERS","NEH","DATA","RST","WU","SETTINGS","PING","PRIORITY","PINGACK","UNKNOWN","CONT","PUSH"}'
+ALLKINDS = '{"HEADERS","NEH","DATA","RST","WU","SETTINGS","PING","PRIORITY","PINGACK","UNKNOWN","CONT","PUSH","WRACE"}'
 ALLREQS = ('{"get","post","tetrailers","nomethod","nopath","emptypath","noscheme","duppath","badpseudo","resppseudo",'
            '"upper","pseudoafter","connhdr","te"}')
 
@@ -340,7 +357,7 @@ def check_c35(ctx):
     ctx.cov["constants"]["Gen_C35"] = g
     cases += gen(ctx, g, 450 if q else 2000, 150, "C35")
     # every sequence of 2 (thorough: 3, the first one opening a stream) stimuli over a smaller alphabet
-    gx = defs(MAXS=2, SIDS="{1,3}", KINDS='{"HEADERS","NEH","DATA","RST","WU","SETTINGS","PING","CONT"}',
+    gx = defs(MAXS=2, SIDS="{1,3}", KINDS='{"HEADERS","NEH","DATA","RST","WU","SETTINGS","PING","CONT","WRACE"}',
               REQS='{"get","post","upper","connhdr"}', TRAILERS='{"trailers"}', DATALENS="{0,1}", PADS="{0}", CLS="ClZero",
               WUINCS="{0,1}", IWS="Absent", MFS="MfsFlow", HOPS='{"read","write","ret"}', WRITELENS="{1}",
               STEPS=2, MINSTEPS=1, FIRSTH="FALSE")
@@ -475,7 +492,7 @@ FLOOD_HIST = 3 * FLOOD_ESCAPE          # a connection with a past: answered PING
 def run_flood(ctx, cases, label):
     for i, c in enumerate(cases):
         c["id"] = i + 1
-    send = [{"id": c["id"], "cap": FLOOD_CAP, "hist": c.get("hist", 0), "bursts": [{"k": b["k"], "n": b["n"]} for b in c["bursts"]]} for c in cases]
+    send = [{"id": c["id"], "cap": FLOOD_CAP, "hist": c.get("hist", 0), "goaway": bool(c.get("goaway")), "bursts": [{"k": b["k"], "n": b["n"]} for b in c["bursts"]]} for c in cases]
     res = ctx.harness("h2conn", ["flood"], cases=send, timeout=1500)
     crash = [r for r in res if "_harness_exit" in r]
     if crash or not [r for r in res if r.get("summary")]:
@@ -487,7 +504,7 @@ def run_flood(ctx, cases, label):
         if o is None or o.get("hang"):
             raise vlib.MachineryError("flood case did not complete: %s %s" % (c["bursts"], o))
         kinds = "+".join(sorted({b["k"] for b in c["bursts"]}))
-        ctx.count([c.get("hist", 0)] + [(b["k"], b["n"]) for b in c["bursts"]])
+        ctx.count([c.get("hist", 0), bool(c.get("goaway"))] + [(b["k"], b["n"]) for b in c["bursts"]])
         bad = []
         if o.get("panic"):
             bad.append(("panic", o["panic"]))
@@ -505,10 +522,10 @@ def run_flood(ctx, cases, label):
             bad.append(("delivered", "%d control frames delivered after resuming" % o["received"]))
         for what, det in bad[:1]:
             n += 1
-            ctx.report("%s/%s/%s" % (what, kinds, "fresh" if not c.get("hist") else "used"),
+            ctx.report("%s/%s/%s%s" % (what, kinds, "fresh" if not c.get("hist") else "used", "+goaway" if c.get("goaway") else ""),
                        "after %d answered PINGs, bursts %s: %s; observed %s" % (
                            c.get("hist", 0), [(b["k"], b["n"]) for b in c["bursts"]], det, json.dumps(o)[:600]),
-                       case={"hist": c.get("hist", 0), "bursts": c["bursts"]}, harness="h2conn", cmd="flood")
+                       case={"hist": c.get("hist", 0), "goaway": bool(c.get("goaway")), "bursts": c["bursts"]}, harness="h2conn", cmd="flood")
     if early:
         ctx.drift("action=flood %d behaviours: connection closed although at most Limit control frames were elicited" % early)
     ctx.traces(len(cases))
@@ -525,7 +542,7 @@ def check_c37(ctx):
     g = {"ESCAPE": FLOOD_ESCAPE, "BURSTS": "{1,2,4000,5000,6000,9999,10001,%d}" % (10001 + FLOOD_ESCAPE),
          "KINDS": '{"PING","WU0","DATAC","SETTINGS"}', "STEPS": 3, "HISTS": "{0, 1, %d}" % FLOOD_HIST}
     ctx.cov["constants"]["Gen_ConnFlood"] = dict(g, Limit=10000)
-    r = ctx.tlc(SPEC, "ConnFlood", "ConnFlood_Gen.cfg", mode="sim", sim_num=100 if q else 500, sim_depth=8,
+    r = ctx.tlc(SPEC, "ConnFlood", "ConnFlood_Gen.cfg", mode="sim", sim_num=140 if q else 600, sim_depth=8,
                 defines=g, timeout=900, count=False)
     if not r.ok:
         raise vlib.MachineryError("ConnFlood generator failed: %s %s" % (r.error or r.violation, r.out[-600:]))
@@ -533,7 +550,7 @@ def check_c37(ctx):
     for c in r.cases:
         if "bursts" not in c:
             continue
-        k = json.dumps([c.get("hist", 0)] + [(b["k"], b["n"]) for b in c["bursts"]])
+        k = json.dumps([c.get("hist", 0), bool(c.get("goaway"))] + [(b["k"], b["n"]) for b in c["bursts"]])
         if k not in seen:
             seen.add(k)
             cases.append(c)
